@@ -37,7 +37,9 @@ def spectrum():
     for ax in [[0],[1]]: add([2,3], ax, "quick")
     for ax in [[0],[1],[2],[0,1],[1,0],[1,2],[2,1],[0,2],[2,0]]: add([2,3,2], ax, "quick")
     for ax in [[0],[1],[2],[0,2],[2,1]]: add([1,2,3], ax, "quick")
-    for ax in [[1,3],[3,1],[0,1,2],[2,0,1],[3,2,1],[0,3,1],[1,2,3],[3,0,2]]: add([2,2,2,2], ax, "quick" if len(ax)==3 and ax in ([0,1,2],[3,2,1],[2,0,1]) else "thorough")
+    for ax in [[1],[2],[1,2],[2,1]]: add([2,3,1], ax, "quick")
+    add([3,1], [0], "quick"); add([3,1], [1], "quick"); add([2,2,1,1], [1], "quick"); add([2,2,1,1], [3,1], "thorough")
+    for ax in [[1,3],[3,1],[0,1,2],[2,0,1],[3,2,1],[0,3,1],[1,2,3],[3,0,2],[1,3,2],[0,2,1],[2,3,1]]: add([2,2,2,2], ax, "quick" if ax in ([0,1,2],[3,2,1],[2,0,1],[1,3,2],[0,3,1],[1,3]) else "thorough")
     for k in (1,2):
         for ax in itertools.permutations(range(3), k): add([3,2,4], list(ax), "thorough")
     for ax in [[0,4],[4,2,0],[3,1]]: add([2,1,2,2,2], ax, "thorough")
@@ -73,6 +75,15 @@ def project_cases():
         t += f"// @harness props=C03,C02 tier={tier} group=f64 bounds=source={nos(f)},target={nos(to)},cells=0..3,pmf=table-stub timeout=1800\n"
         t += f"project_h!(project_structure_{sid(f)}_to_{sid(to)}, {r}, {n}, {m}, {lit(f)}, {lit(to)}, {max(n, m, r) + 3});\n\n"
     fill(p, "PROJECT_CASES", t)
+
+def decoders():
+    p = os.path.join(HERE, "core/npy_header.rs")
+    t = ""
+    for e, en in (("Little", "l"), ("Big", "b")):
+        for ty in ["F4","F8","I1","I2","I4","I8","U1","U2","U4","U8"]:
+            t += f"// @harness props=C15 tier=quick group=f64 bounds=dtype={'<' if e=='Little' else '>'}{ty.lower()},two-values-of-symbolic-bytes(all-bit-patterns) timeout=900\n"
+            t += f"decoder_h!(decoder_{en}{ty.lower()}, {e}, {ty});\n\n"
+    fill(p, "DECODER_CASES", t)
 
 def site_reader():
     p = os.path.join(HERE, "core/site_reader.rs")
@@ -119,3 +130,4 @@ def site_reader():
 if __name__ == "__main__":
     site_reader()
     project_cases()
+    decoders()
